@@ -1032,8 +1032,11 @@ const C22_FIELDS: [(&str, &[&str]); 4] = [
 ];
 
 fn log_book(msg: &str) -> routinator::log::LogBook {
+    // several messages per book: the documents carry them as arrays
     let mut w = LogBookWriter::new(None);
     w.warn(format_args!("{msg}"));
+    w.warn(format_args!("a second message"));
+    w.warn(format_args!("a third message"));
     w.into_book()
 }
 
